@@ -112,9 +112,19 @@ def gen_pq(rng, n_ops, dup=False):
                 if e[2] == t:
                     e[0] = p
                     break
-        elif r < 0.88:
+        elif r < 0.872:
             k = rng.randint(0, len(live) + 1)
             lines.append(f"pq {qi} ordered {k}")
+        elif r < 0.88 and dup:
+            lines.append(f"pq {qi} ordered {rng.randint(0, len(live) + 1)}")
+        elif r < 0.88:
+            # two overlapping ordered iterations: the first is left open while the second runs and
+            # is closed; then the first is closed.  Nothing else happens in between (what the queue
+            # looks like while an ordered iteration is open is unspecified); afterwards nothing may
+            # be lost or reordered.
+            lines.append(f"pq {qi} ordopen {rng.randint(1, max(1, len(live)))}")
+            lines.append(f"pq {qi} ordered {rng.randint(0, len(live) + 1)}")
+            lines.append(f"pq {qi} ordclose")
         elif r < 0.91:
             lines.append(f"pq {qi} " + rng.choice(["refresh", "sort", "sorteditems", "items"]))
         elif r < 0.95:
@@ -214,6 +224,8 @@ def to_model(ln):
     if len(t) > 2 and t[2] == "iteropen":
         return f"{t[0]} {t[1]} iter"
     if len(t) > 2 and t[2] == "iterclose":
+        return f"{t[0]} {t[1]} len"
+    if len(t) > 2 and t[2] in ("ordopen", "ordclose"):
         return f"{t[0]} {t[1]} len"
     return ln
 
@@ -336,6 +348,11 @@ def oracle_pq(lines, outs, tags):
             qs[int(a[0])] = q.copy()
             tags.add("copy")
             exp = "ok"
+        elif op in ("ordopen", "ordclose"):
+            tags.add("overlapping-ordered-iterations")
+            continue
+        elif op == "ordered" and idx > 0 and lines[idx - 1].split()[2] == "ordopen":
+            continue
         elif op == "ordered":
             k = int(a[0])
             n = len(q.items)
@@ -496,7 +513,7 @@ def shrink(lines, only_lt=False):
     return head + core.ddmin(body, fails)
 
 
-OPCLASS = {"iteropen": "iterate-partially", "iterclose": None, "append": "append", "appendpri": "append", "add": "add", "extend": "add",
+OPCLASS = {"ordopen": "overlapping-ordered", "ordclose": None, "iteropen": "iterate-partially", "iterclose": None, "append": "append", "appendpri": "append", "add": "add", "extend": "add",
            "drain": None, "popleft": "pop", "iter": None, "pop": "pop", "popitem": "pop",
            "peek": None, "peekitem": None, "len": None, "bool": None, "in": None, "items": None,
            "sorteditems": None, "layout": None, "seq": None, "new": None, "gp": None,
@@ -548,11 +565,15 @@ def explore(ctx, cases, only_lt=False, label="", oracle=True):
         mo = mouts[start:start + n]
         for i, (ln, r, m) in enumerate(zip(lines, outs, mo)):
             if ln.split()[2] == "layout":
+                if any(x.split()[2] == "ordopen" for x in lines):
+                    continue    # the model does not perform the pops/restores of the overlapped iterations
                 layout_n += 1
                 layout_ok += r == m
                 continue
-            if ln.split()[2] == "iterclose":
+            if ln.split()[2] in ("iterclose", "ordopen", "ordclose"):
                 continue
+            if ln.split()[2] == "ordered" and i > 0 and lines[i - 1].split()[2] == "ordopen":
+                continue        # what an iteration sees while another one is open is unspecified
             if ln.split()[2] == "iteropen":
                 k = len([x for x in r[5:].split(",") if x]) if r.startswith("list") else 0
                 m = "list " + ",".join([x for x in m[5:].split(",") if x][:k]) if m.startswith("list") else m
